@@ -586,7 +586,7 @@ Section PathText.
       cbn [andb negb]; rewrite ?skip_stars_nostar by exact Hr; reflexivity.
   Qed.
 
-  Definition tail_ok (tail : str) : bool := match tail with [] => true | c :: _ => N.eqb c 47 end.
+  Definition tail_ok (tail : str) : bool := match tail with [] => true | c :: _ => N.eqb c 47 || N.eqb c 92 end.
 
   Lemma pstep_lit f st i c r cur :
     plain c = true -> c <> 47%N ->
@@ -725,7 +725,8 @@ Section PathText.
     (match unparse ts ++ tail with c :: _ => negb (N.eqb c 42) | [] => true end) = true.
   Proof.
     intros W Ht Hs. destruct ts as [|t ts'].
-    - cbn. destruct tail as [|c tl]; [reflexivity|]. cbn in Ht. apply N.eqb_eq in Ht. subst c. reflexivity.
+    - cbn. destruct tail as [|c tl]; [reflexivity|]. cbn in Ht. apply orb_true_iff in Ht.
+      destruct Ht as [Ht|Ht]; apply N.eqb_eq in Ht; subst c; reflexivity.
     - destruct t as [c|c| | |neg l]; cbn in *; try reflexivity; [|discriminate].
       apply andb_true_iff in W. destruct W as [W _]. apply andb_true_iff in W. destruct W as [W _].
       unfold plain, ch_in in W. cbn [existsb] in W. apply negb_true_iff in W. apply orb_false_iff in W. destruct W as [W _]. rewrite W. reflexivity.
@@ -849,6 +850,114 @@ Section PathText.
         (XCat (emit_seg (c_dot cf) true sg) (XCat xSep (emit_path (c_dot cf) (sg2 :: segs')))).
       cbn [xprint]. rewrite <- !app_assoc. reflexivity.
   Qed.
+
+  (* ---- runs of separators: every separator may be written as any non-empty run of `/` and escaped `\/` --------------- *)
+  Definition sepspell (b : bool) : str := if b then [92%N; 47%N] else [47%N].
+  Definition seprun (bs : list bool) : str := flat_map sepspell bs.
+
+  Lemma skip_slashes_run : forall bs r i, nosep_head r = true ->
+    skip_slashes (seprun bs ++ r) i = {| idx := i + Z.of_nat (length (seprun bs)); rest := r |}.
+  Proof.
+    induction bs as [|b bs IH]; intros r i Hr.
+    - cbn [seprun flat_map app length]. rewrite skip_slashes_noslash by exact Hr. f_equal. lia.
+    - unfold seprun. cbn [flat_map]. fold (seprun bs). destruct b; cbn [sepspell app].
+      + cbn [skip_slashes]. change (N.eqb 92%N cSL) with false. change (N.eqb 92%N cBS) with true. change (N.eqb 47%N cSL) with true.
+        cbv iota. rewrite IH by exact Hr. f_equal. cbn [length]. lia.
+      + cbn [skip_slashes]. change (N.eqb 47%N cSL) with true. cbv iota. rewrite IH by exact Hr. f_equal. cbn [length]. lia.
+  Qed.
+
+  Lemma pstep_sep_run f st i bs r cur :
+    inv_ext st = 0 -> nosep_head r = true ->
+    root_loop (S f) cf st {| idx := i; rest := 47%N :: seprun bs ++ r |} cur =
+    root_loop f cf (update_dir_state (set_matchbase (set_start_dir st) false))
+              {| idx := i + 1 + Z.of_nat (length (seprun bs)); rest := r |} (T (xprint xSep) :: cur).
+  Proof.
+    intros Hi Hr. cbn [root_loop next rest idx]. rewrite Hext. cbn [andb].
+    change (N.eqb 47%N cDOT) with false. change (N.eqb 47%N cSTAR) with false. change (N.eqb 47%N cQM) with false.
+    change (N.eqb 47%N cSL) with true. cbv iota. rewrite Hpath.
+    unfold clean_up_inverse. replace (inv_ext (set_start_dir st)) with 0 by (symmetry; exact Hi). cbn [Z.eqb].
+    unfold consume_path_sep. rewrite Habort. cbn [rest idx]. rewrite skip_slashes_run by exact Hr. rewrite Hsep. reflexivity.
+  Qed.
+
+  Lemma pstep_escsep_run f st i bs r cur :
+    inv_ext st = 0 -> in_list st = false -> nosep_head r = true ->
+    root_loop (S f) cf st {| idx := i; rest := 92%N :: 47%N :: seprun bs ++ r |} cur =
+    root_loop f cf (update_dir_state (set_matchbase (set_start_dir st) false))
+              {| idx := i + 1 + 1 + Z.of_nat (length (seprun bs)); rest := r |} (T (xprint xSep) :: cur).
+  Proof.
+    intros Hi Hl Hr. cbn [root_loop next rest idx]. rewrite Hext. cbn [andb].
+    change (N.eqb 92%N cDOT) with false. change (N.eqb 92%N cSTAR) with false. change (N.eqb 92%N cQM) with false.
+    change (N.eqb 92%N cSL) with false. change (N.eqb 92%N cBS) with true. cbv iota.
+    unfold references. cbn [next rest idx]. change (N.eqb 47%N cBS) with false. change (N.eqb 47%N cSL) with true. cbv iota.
+    cbn [andb]. rewrite Hpath, Hl. cbn [negb]. cbv iota.
+    change (dir_start (set_start_dir st)) with true. cbv iota.
+    unfold clean_up_inverse. replace (inv_ext (set_start_dir st)) with 0 by (symmetry; exact Hi). cbn [Z.eqb].
+    unfold consume_path_sep. rewrite Habort. cbn [rest idx]. rewrite skip_slashes_run by exact Hr. rewrite Hsep. reflexivity.
+  Qed.
+
+  (* a path pattern whose separators are spelled as runs: (segment, the run written after it) - the run after the last
+     segment is not written *)
+  Fixpoint punparse_r (l : list (list tok * (bool * list bool))) : str :=
+    match l with
+    | [] => []
+    | [(sg, _)] => unparse sg
+    | (sg, (b, bs)) :: rest => unparse sg ++ sepspell b ++ seprun bs ++ punparse_r rest
+    end.
+
+  Lemma punparse_r_head_noslash sg ru rest : seg_wf sg = true -> nosep_head (punparse_r ((sg, ru) :: rest)) = true.
+  Proof.
+    intros W. apply andb_true_iff in W. destruct W as [W Hne]. destruct sg as [|t ts]; [discriminate|].
+    destruct ru as [b bs]. destruct rest as [|x rest'].
+    - cbn [punparse_r]. rewrite <- (app_nil_r (unparse (t :: ts))). apply punparse_head; [exact W|reflexivity].
+    - cbn [punparse_r]. apply punparse_head; [exact W|]. destruct b; reflexivity.
+  Qed.
+
+  Lemma in_list_after_sep st : in_list (update_dir_state (set_matchbase (set_start_dir st) false)) = in_list st.
+  Proof. unfold update_dir_state. destruct (_ && _); [reflexivity|]. destruct (_ && _); reflexivity. Qed.
+
+  Lemma path_loop_r : forall l fuel st i cur,
+    l <> [] -> Forall (fun x => seg_wf (fst x) = true) l -> (length (punparse_r l) < fuel)%nat -> inv3 true st -> in_list st = false ->
+    exists st' cur', root_loop fuel cf st {| idx := i; rest := punparse_r l |} cur = Ok (st', cur') /\
+                     jrev cur' ++ xprint xTrail = jrev cur ++ xprint (emit_path (c_dot cf) (map fst l)) /\ inv st'.
+  Proof.
+    induction l as [|[sg [b bs]] l IH]; intros fuel st i cur Hne W Hf I2 Hl; [contradiction|].
+    inversion W as [|? ? Wsg Wrest]; subst. cbn [fst] in Wsg.
+    pose proof Wsg as Wsg'. apply andb_true_iff in Wsg'. destruct Wsg' as [Wp Wn].
+    destruct l as [|[sg2 ru2] l'].
+    - cbn [punparse_r map fst] in *. rewrite <- (app_nil_r (unparse sg)).
+      destruct (seg_advance sg fuel st i cur true [] Wp eq_refl ltac:(lia) I2) as [f' [st' [i' [cur' [Hf' [E [J [K SM]]]]]]]].
+      rewrite E. destruct f' as [|f'']; [lia|]. exists st', cur'. split; [reflexivity|]. split.
+      + rewrite J. cbn [emit_path xprint]. rewrite <- app_assoc. reflexivity.
+      + eapply inv3_inv. exact K.
+    - change (punparse_r ((sg, (b, bs)) :: (sg2, ru2) :: l')) with
+        (unparse sg ++ sepspell b ++ seprun bs ++ punparse_r ((sg2, ru2) :: l')) in *.
+      rewrite !app_length in Hf.
+      assert (Htl : tail_ok (sepspell b ++ seprun bs ++ punparse_r ((sg2, ru2) :: l')) = true) by (destruct b; reflexivity).
+      destruct (seg_advance sg fuel st i cur true (sepspell b ++ seprun bs ++ punparse_r ((sg2, ru2) :: l')) Wp Htl ltac:(lia) I2)
+        as [f' [st' [i' [cur' [Hf' [E [J [K SM]]]]]]]].
+      rewrite E.
+      assert (Hsl : (1 <= length (sepspell b))%nat) by (destruct b; cbn; lia).
+      destruct f' as [|f'']; [lia|].
+      inversion Wrest as [|? ? Wsg2 _]; subst. cbn [fst] in Wsg2.
+      assert (Hl' : in_list st' = false) by (destruct SM as [_ SM2]; rewrite SM2; exact Hl).
+      pose proof (punparse_r_head_noslash sg2 ru2 l' Wsg2) as Hnh.
+      assert (Hstep : exists i2, root_loop (S f'') cf st' {| idx := i'; rest := sepspell b ++ seprun bs ++ punparse_r ((sg2, ru2) :: l') |} cur' =
+                root_loop f'' cf (update_dir_state (set_matchbase (set_start_dir st') false)) {| idx := i2; rest := punparse_r ((sg2, ru2) :: l') |}
+                          (T (xprint xSep) :: cur')).
+      { destruct b; cbn [sepspell app].
+        - eexists. apply pstep_escsep_run; [apply K|exact Hl'|exact Hnh].
+        - eexists. apply pstep_sep_run; [apply K|exact Hnh]. }
+      destruct Hstep as [i2 Hstep]. rewrite Hstep.
+      destruct (IH f'' (update_dir_state (set_matchbase (set_start_dir st') false)) i2 (T (xprint xSep) :: cur'))
+        as [st'' [cur'' [E2 [J2 K2]]]]; [discriminate|exact Wrest|destruct b; cbn [sepspell length] in *; lia|eapply inv3_after_sep; exact K|
+                                          rewrite in_list_after_sep; exact Hl'|].
+      exists st'', cur''. split; [exact E2|]. split; [|exact K2].
+      rewrite J2, jrev_cons, J.
+      change (map fst ((sg, (b, bs)) :: (sg2, ru2) :: l')) with (sg :: sg2 :: map fst l').
+      change (emit_path (c_dot cf) (sg :: sg2 :: map fst l')) with
+        (XCat (emit_seg (c_dot cf) true sg) (XCat xSep (emit_path (c_dot cf) (map fst ((sg2, ru2) :: l'))))).
+      cbn [xprint]. rewrite <- !app_assoc. reflexivity.
+  Qed.
 End PathText.
 
 Lemma str_eqb_true : forall a b : str, str_eqb a b = true -> a = b.
@@ -946,6 +1055,113 @@ Proof.
   rewrite !jrev_cons, J, Hdot. cbn [jrev rev map concat app].
   destruct (matchbase st' || extmatchbase st'); reflexivity.
 Qed.
+
+(* ---- separator runs: the text the parser produces does not depend on how the separators are spelled ------------------------ *)
+Lemma punparse_r_not_lone_bs l : Forall (fun x => seg_wf (fst x) = true) l -> str_eqb (punparse_r l) [cBS] = false.
+Proof.
+  intros W. destruct (str_eqb (punparse_r l) [cBS]) eqn:E; [|reflexivity]. exfalso. apply str_eqb_true in E.
+  destruct l as [|[sg [b bs]] rest]; [discriminate|]. inversion W as [|? ? Wsg _]; subst. cbn [fst] in Wsg.
+  apply andb_true_iff in Wsg. destruct Wsg as [Wp Wn]. destruct sg as [|t ts]; [discriminate|].
+  destruct rest as [|x rest'].
+  - cbn [punparse_r] in E. pose proof (punparse_not_lone_bs [t :: ts]) as Q. cbn [punparse] in Q. rewrite E in Q.
+    assert (Q' : str_eqb [cBS] [cBS] = false).
+    { apply Q. constructor; [|constructor]. unfold seg_wf. rewrite Wp. reflexivity. }
+    discriminate Q'.
+  - cbn [punparse_r] in E. pose proof (unparse_len_pos t ts) as L. apply (f_equal (@length N)) in E.
+    rewrite !app_length in E. cbn [length] in E. destruct b; cbn [sepspell length] in E; lia.
+Qed.
+
+Lemma punparse_r_cons sg ru rest : seg_wf sg = true -> exists d r, punparse_r ((sg, ru) :: rest) = d :: r /\ d <> 47%N.
+Proof.
+  intros W. pose proof (punparse_r_head_noslash sg ru rest W) as H.
+  destruct (punparse_r ((sg, ru) :: rest)) as [|d r] eqn:E.
+  - exfalso. apply andb_true_iff in W. destruct W as [_ Wn]. destruct sg as [|t ts]; [discriminate|]. destruct ru as [b bs].
+    destruct rest; cbn [punparse_r] in E; destruct t; cbn in E; discriminate.
+  - exists d, r. split; [reflexivity|]. unfold nosep_head in H. apply andb_true_iff in H. destruct H as [H _].
+    apply negb_true_iff in H. apply N.eqb_neq in H. exact H.
+Qed.
+
+Theorem wcparse_path_runs_text flags isb l :
+  l <> [] -> Forall (fun x => seg_wf (fst x) = true) l ->
+  has flags PATHNAME = true -> is_unix_style linux flags = true -> has flags EXTMATCH = false ->
+  has flags NODOTDIR = false -> has flags REALPATH = false ->
+  has flags u_ANCHOR = false -> has flags MATCHBASE = false -> has flags u_EXTMATCHBASE = false ->
+  has flags u_TRANSLATE = false ->
+  wcparse linux flags isb (punparse_r l) =
+  inl (S_ "^(?s" ++ (if get_case linux flags then [] else S_ "i") ++ S_ ":" ++
+       xprint (emit_path (has flags DOTMATCH) (map fst l)) ++ S_ ")$").
+Proof.
+  intros Hne W Hp Hu Hx Hnd Hr Ha Hm He Ht. unfold wcparse.
+  destruct (mk_cfg linux flags isb) as [cf st] eqn:E.
+  assert (Ecf : cf = fst (mk_cfg linux flags isb)) by (rewrite E; reflexivity).
+  assert (Est : st = snd (mk_cfg linux flags isb)) by (rewrite E; reflexivity).
+  assert (Hpath : c_pathname cf = true) by (rewrite Ecf; exact Hp).
+  assert (Hunix : c_unix cf = true) by (rewrite Ecf; exact Hu).
+  assert (Hext : c_extend cf = false) by (rewrite Ecf; exact Hx).
+  assert (Hnodot : c_nodotdir cf = false) by (rewrite Ecf; exact Hnd).
+  assert (Hdot : c_dot cf = has flags DOTMATCH) by (rewrite Ecf; reflexivity).
+  assert (Habort : c_bslash_abort cf = false) by (rewrite Ecf; unfold mk_cfg; cbn [fst c_bslash_abort]; rewrite Hu; reflexivity).
+  assert (Hwd : c_windrive cf = false) by (rewrite Ecf; unfold mk_cfg; cbn [fst c_windrive]; rewrite Hu; reflexivity).
+  assert (Hanchor : c_anchor cf = false) by (rewrite Ecf; exact Ha).
+  assert (Hcap : c_capture cf = false) by (rewrite Ecf; exact Ht).
+  assert (Hreal : c_realpath cf = false) by (rewrite Ecf; unfold mk_cfg; cbn [fst c_realpath]; rewrite Hr; reflexivity).
+  assert (Hgcap : c_gcapture cf = false) by (rewrite Ecf; unfold mk_cfg; cbn [fst c_gcapture]; rewrite Hr; reflexivity).
+  assert (Hcs : c_cs cf = get_case linux flags) by (rewrite Ecf; reflexivity).
+  assert (Hsep : c_sep cf = S_ "[/]") by (rewrite Ecf; unfold mk_cfg; cbn [fst c_sep]; rewrite Hu; reflexivity).
+  assert (Hneed : c_need_char cf = xprint xNeedChar) by (rewrite Ecf; unfold mk_cfg; cbn [fst c_need_char]; rewrite Hp, Hu; reflexivity).
+  assert (Hnodir : c_no_dir cf = xprint xNoDir) by (rewrite Ecf; unfold mk_cfg; cbn [fst c_no_dir]; rewrite Hu; reflexivity).
+  assert (Hseq : c_seq_path cf = xprint xNoSlash) by (rewrite Ecf; unfold mk_cfg; cbn [fst c_seq_path]; rewrite Hu; reflexivity).
+  assert (Hseqdot : c_seq_path_dot cf = xprint xNoSlashDot) by (rewrite Ecf; unfold mk_cfg; cbn [fst c_seq_path_dot]; rewrite Hu; reflexivity).
+  assert (Hstar : c_path_star cf = xprint xPathStar) by (rewrite Ecf; unfold mk_cfg; cbn [fst c_path_star]; rewrite Hu; reflexivity).
+  assert (Hstar1 : c_path_star_dot1 cf = xprint xNoDir ++ xprint xPathStar) by (rewrite Ecf; unfold mk_cfg; cbn [fst c_path_star_dot1]; rewrite Hu; reflexivity).
+  assert (Hstar2 : c_path_star_dot2 cf = xprint xNoDir ++ xprint xStarNoDot) by (rewrite Ecf; unfold mk_cfg; cbn [fst c_path_star_dot2]; rewrite Hu; reflexivity).
+  assert (Hg1 : c_path_gstar_dot1 cf = S_ "(?:(?!(?:[/]|^)(?:\.{1,2})($|[/])).)*?") by (rewrite Ecf; unfold mk_cfg; cbn [fst c_path_gstar_dot1]; rewrite Hu; reflexivity).
+  assert (Hg2 : c_path_gstar_dot2 cf = S_ "(?:(?!(?:[/]|^)\.).)*?") by (rewrite Ecf; unfold mk_cfg; cbn [fst c_path_gstar_dot2]; rewrite Hu; reflexivity).
+  assert (Hmb : matchbase st = false) by (rewrite Est; exact Hm).
+  assert (Hemb : extmatchbase st = false) by (rewrite Est; exact He).
+  assert (Hds : dir_start st = false /\ inv_ext st = 0) by (rewrite Est; split; reflexivity).
+  assert (Hil : in_list st = false) by (rewrite Est; reflexivity).
+  unfold wcparse_cf. rewrite Hanchor, Hmb, Hemb. cbn [orb].
+  rewrite (punparse_r_not_lone_bs l W).
+  destruct l as [|[sg ru] rest]; [contradiction|].
+  assert (Wsg : seg_wf sg = true) by (inversion W; assumption).
+  destruct (punparse_r_cons sg ru rest Wsg) as [d [r [Er Hd47]]].
+  remember (punparse_r ((sg, ru) :: rest)) as p eqn:Ep. rewrite Er. rewrite <- Er.
+  unfold root. rewrite Hwd, Hpath, Hreal. cbn [andb negb].
+  replace (starts_with [cSL] p) with false.
+  2:{ rewrite Er. change (starts_with [cSL] (d :: r)) with (N.eqb 47 d && true).
+      destruct (N.eqb_spec 47 d) as [X0|X0]; [exfalso; apply Hd47; symmetry; exact X0|reflexivity]. }
+  rewrite andb_false_r. cbn [negb andb].
+  assert (I2 : inv3 true (set_after_start st)) by (destruct Hds; repeat split; cbn; auto).
+  destruct (path_loop_r cf Hpath Hext Habort Hunix Hnodot Hsep Hneed Hnodir Hseq Hseqdot Hstar Hstar1 Hstar2 Hg1 Hg2 Hgcap
+                        ((sg, ru) :: rest) (fuel_for p) (set_after_start st) 0 [T []]) as [st' [cur' [Eq [J [Hd' Hi']]]]].
+  { discriminate. } { exact W. } { rewrite <- Ep. unfold fuel_for. lia. } { exact I2. } { exact Hil. }
+  rewrite <- Ep in Eq. rewrite Eq.
+  unfold clean_up_inverse. rewrite Hi'. cbn [Z.eqb]. rewrite Hcap, Hcs, Hsep.
+  replace (format Frag.u_PATH_TRAIL (S_ "[/]") []) with (xprint xTrail) by reflexivity.
+  rewrite !jrev_cons, J, Hdot. cbn [jrev rev map concat app].
+  destruct (matchbase st' || extmatchbase st'); reflexivity.
+Qed.
+
+(* ... so a pattern with respelled separator runs compiles to the very regex of the pattern with single separators *)
+Theorem wcparse_path_runs flags isb l :
+  l <> [] -> Forall (fun x => seg_wf (fst x) = true) l ->
+  has flags PATHNAME = true -> is_unix_style linux flags = true -> has flags EXTMATCH = false ->
+  has flags NODOTDIR = false -> has flags REALPATH = false ->
+  has flags u_ANCHOR = false -> has flags MATCHBASE = false -> has flags u_EXTMATCHBASE = false ->
+  has flags u_TRANSLATE = false ->
+  wcparse linux flags isb (punparse_r l) = wcparse linux flags isb (punparse (map fst l)).
+Proof.
+  intros Hne W. intros. rewrite wcparse_path_runs_text by assumption. symmetry. apply wcparse_path; try assumption.
+  - destruct l; [contradiction|discriminate].
+  - apply Forall_map. exact W.
+Qed.
+
+Example path_runs_example :
+  wcparse linux PATHNAME false (punparse_r [([TLit 97%N], (true, [false; true])); ([TStar; TLit 98%N], (false, []))]) =
+  wcparse linux PATHNAME false (S_ "a/*b") /\
+  punparse_r [([TLit 97%N], (true, [false; true])); ([TStar; TLit 98%N], (false, []))] = [97; 92; 47; 47; 92; 47; 42; 98]%N.
+Proof. vm_compute. split; reflexivity. Qed.
 
 (* both halves together *)
 Theorem C02_flat_path_language flags isb segs :
